@@ -5,8 +5,10 @@ import checklib
 
 def regen(ctx):
     tv = ["kvstore/typedvalue.go:TypedValue." + m for m in ("Get", "Has", "Compute", "Set", "Delete")]
-    ts = ["kvstore/typedstore.go:TypedStore." + m for m in ("Get", "Has", "Set", "Delete", "Iterate")]
-    fails = checklib.regen_skeletons(ctx, tv + ts, extra_methods=["Get", "Set", "Delete", "Has", "Iterate"]) or []
+    ts = ["kvstore/typedstore.go:TypedStore." + m for m in ("Get", "Has", "Set", "Delete", "Iterate", "IterateKeys", "DeletePrefix", "Clear")]
+    types = ["kvstore/typedvalue.go:type=TypedValue", "kvstore/typedstore.go:type=TypedStore", "runtime/syncutils/mutex.go:type=RWMutex"]
+    fails = checklib.regen_skeletons(ctx, tv + ts + types, extra_methods=["Get", "Set", "Delete", "Has", "Iterate", "IterateKeys", "DeletePrefix",
+                                                                          "Clear", "cachedValue"]) or []
     return fails + regen_code(ctx)
 
 
@@ -37,7 +39,8 @@ SPEC = {
                  "C06_serialised", "C06_serialised_coherent", "C06_serialised_readers", "C06_serialised_counter",
                  "C06_skeleton_get", "C06_skeleton_has", "C06_skeleton_compute", "C06_skeleton_set", "C06_skeleton_delete",
                  "C06_skeleton_store_get", "C06_skeleton_store_has", "C06_skeleton_store_set", "C06_skeleton_store_delete",
-                 "C06_skeleton_store_iterate",
+                 "C06_skeleton_store_iterate", "C06_skeleton_store_iterate_keys", "C06_skeleton_store_delete_prefix_clear",
+                 "C06_skeleton_type_typedvalue", "C06_skeleton_type_typedstore", "C06_skeleton_type_rwmutex",
                  "C06_code_refines_model", "C06_code_coherent_failure_atomic", "C06_code_lock_discipline"],
     "trusted_base": ["hand-written models Hive/Model/TypedValue.lean, TypedStore.lean, TypedConc.lean of kvstore/typedvalue.go and typedstore.go, "
                      "tied by differential execution with fault injection (harness/c06)",
